@@ -6,56 +6,83 @@ From Gots Require Import Base.Prelude Model.PacketWriter Model.IO Model.Bufio Sp
 Import IOSpec PacketWriter Bufio.
 Local Open Scope nat_scope.
 
-(* hypothesis on the underlying reader: no (0, nil) results (bufio gives up with io.ErrNoProgress
-   after 100 of them in a row; that behaviour is compared by the fidelity cases of io.syncb) *)
-Definition nonempty_reads (st : rstate) : Prop :=
-  match st with
-  | Failed _ => True
-  | Script s => Forall (fun ce : bytes * option N => fst ce <> [] \/ snd ce <> None) s
+(* hypothesis on the underlying reader: fewer than 100 zero-length reads ((0, nil) results) in a
+   row (bufio gives up with io.ErrNoProgress after 100; that path is compared by the fidelity
+   cases of io.syncb) *)
+Fixpoint lead (s : script) : nat :=
+  match s with
+  | ([], None) :: s' => S (lead s')
+  | _ => 0
   end.
+Fixpoint runs_lt (s : script) : Prop :=
+  match s with
+  | [] => True
+  | _ :: s' => lead s < maxConsecutiveEmptyReads /\ runs_lt s'
+  end.
+Definition few_empty_reads (st : rstate) : Prop :=
+  match st with Failed _ => True | Script s => runs_lt s end.
+Definition st_lead (st : rstate) : nat :=
+  match st with Failed _ => 0 | Script s => lead s end.
 
-Lemma rd_read_facts st k : 0 < k -> nonempty_reads st ->
+Lemma st_lead_lt st : few_empty_reads st -> st_lead st < maxConsecutiveEmptyReads.
+Proof.
+  destruct st as [[|ce s]|e]; cbn [few_empty_reads st_lead runs_lt]; unfold maxConsecutiveEmptyReads.
+  - cbn. lia.
+  - intros [H _]. exact H.
+  - lia.
+Qed.
+
+Lemma lead_nonempty c oe s' : c <> [] -> lead ((c, oe) :: s') = 0.
+Proof. destruct c; [contradiction|reflexivity]. Qed.
+
+Lemma rd_read_facts st k : 0 < k -> few_empty_reads st ->
   forall data e st', rd_read st k = ((data, e), st') ->
-  data ++ st_data st' = st_data st /\ st_err st' = st_err st /\ length data <= k /\ nonempty_reads st' /\
-  (forall x, e = Some x -> st' = Failed x /\ x = st_err st) /\ (e = None -> data <> []).
+  data ++ st_data st' = st_data st /\ st_err st' = st_err st /\ length data <= k /\ few_empty_reads st' /\
+  (forall x, e = Some x -> st' = Failed x /\ x = st_err st) /\
+  (e = None -> data = [] -> st_lead st = S (st_lead st')) /\
+  weight st' <= weight st /\ (e = None -> data = [] -> weight st' < weight st).
 Proof.
   intros Hk Hne data e st' H.
   destruct st as [[|[c oe] s']|e0]; cbn [rd_read] in H.
-  - inversion H; subst. cbn [st_data st_err script_data script_err app length nonempty_reads].
+  - inversion H; subst. cbn [st_data st_err script_data script_err app length few_empty_reads weight].
     split; [reflexivity|]. split; [reflexivity|]. split; [lia|]. split; [exact I|]. split.
-    + intros y Hy. inversion Hy; subst. auto.
-    + discriminate.
-  - cbn [nonempty_reads] in Hne. inversion Hne as [|? ? Hc Hs']; subst. cbn [fst snd] in Hc.
+    { intros y Hy. inversion Hy; subst. auto. }
+    split; [discriminate|]. split; [lia|discriminate].
+  - cbn [few_empty_reads runs_lt] in Hne. destruct Hne as [Hlead Hs'].
+    assert (Hw : forall c0, weight (Script ((c0, oe) :: s')) = S (length c0) + weight (Script s')).
+    { intro c0. cbn. lia. }
     destruct (Nat.leb_spec (length c) k) as [Hl|Hl].
-    + inversion H; subst. destruct e as [x|]; cbn [st_data st_err script_data script_err nonempty_reads].
+    + inversion H; subst. destruct e as [x|]; cbn [st_data st_err script_data script_err few_empty_reads].
       * split; [apply app_nil_r|]. split; [reflexivity|]. split; [exact Hl|]. split; [exact I|]. split.
-        -- intros y Hy. inversion Hy; subst. auto.
-        -- discriminate.
+        { intros y Hy. inversion Hy; subst. auto. }
+        split; [discriminate|]. split; [cbn [weight]; lia|discriminate].
       * split; [reflexivity|]. split; [reflexivity|]. split; [exact Hl|]. split; [exact Hs'|]. split.
-        -- intros y Hy. discriminate.
-        -- intros _. destruct Hc as [Hc|Hc]; [exact Hc|congruence].
-    + inversion H; subst. cbn [st_data st_err script_data script_err nonempty_reads].
+        { intros y Hy. discriminate. }
+        split; [intros _ ->; reflexivity|]. rewrite Hw. split; [lia|intros _ _; lia].
+    + inversion H; subst. cbn [st_data st_err script_data script_err few_empty_reads runs_lt].
       assert (Hsk : skipn k c <> []).
       { intro E0. apply (f_equal (@length N)) in E0. rewrite skipn_length in E0. cbn in E0. lia. }
       assert (Hfk : firstn k c <> []).
       { intro E0. apply (f_equal (@length N)) in E0. rewrite firstn_length in E0. cbn in E0. lia. }
-      split; [|split; [|split; [|split; [|split]]]].
+      split; [|split; [|split; [|split; [|split; [|split; [|split]]]]]].
       * destruct oe; [apply firstn_skipn|]. rewrite app_assoc, firstn_skipn. reflexivity.
       * destruct oe; reflexivity.
       * rewrite firstn_length. lia.
-      * constructor; [left; exact Hsk|exact Hs'].
+      * split; [|exact Hs']. rewrite lead_nonempty by exact Hsk. unfold maxConsecutiveEmptyReads. lia.
       * intros y Hy. discriminate.
-      * intros _. exact Hfk.
-  - inversion H; subst. cbn [st_data st_err app length nonempty_reads].
+      * intros _ E0. contradiction.
+      * rewrite !Hw, skipn_length. lia.
+      * intros _ E0. contradiction.
+  - inversion H; subst. cbn [st_data st_err app length few_empty_reads weight].
     split; [reflexivity|]. split; [reflexivity|]. split; [lia|]. split; [exact I|]. split.
-    + intros y Hy. inversion Hy; subst. auto.
-    + discriminate.
+    { intros y Hy. inversion Hy; subst. auto. }
+    split; [discriminate|]. split; [lia|discriminate].
 Qed.
 
 (* ---- invariant and refinement relation ---- *)
 Definition Inv0 (b : breader) : Prop :=
   length (bwin b) = bw b - br b /\ br b <= bw b /\ bw b <= bcap b /\ 4 <= bcap b /\
-  (forall e, berr b = Some e -> brd b = Failed e) /\ nonempty_reads (brd b).
+  (forall e, berr b = Some e -> brd b = Failed e) /\ few_empty_reads (brd b).
 (* UnreadByte is possible after a ReadByte: then r > 0, or r = w = 0 after a failed fill *)
 Definition InvL (b : breader) : Prop := blast b <> None -> ~ (br b = 0 /\ 0 < bw b).
 Definition bdata (b : breader) : bytes := bwin b ++ st_data (brd b).
@@ -71,13 +98,65 @@ Lemma fill_loop_S i b : fill_loop (S i) b =
   end.
 Proof. reflexivity. Qed.
 
-(* one fill: data is conserved, and either the window grows or b.err is set *)
+(* the read loop of fill, started with room in the buffer and fewer leading empty reads than tries:
+   data is conserved, and either the window grows or b.err is set (to the reader's error) *)
+Lemma fill_loop_spec : forall i b, Inv0 b -> berr b = None -> bw b < bcap b -> st_lead (brd b) < i ->
+  exists b', fill_loop i b = b' /\ Inv0 b' /\ bdata b' = bdata b /\ st_err (brd b') = st_err (brd b) /\
+             blast b' = blast b /\ br b' = br b /\ bcap b' = bcap b /\
+             (berr b' = None -> length (bwin b) < length (bwin b')).
+Proof.
+  induction i as [|i IH]; intros b HI He Hroom Hlead; [lia|].
+  pose proof HI as [Hlen [Hrw [Hwc [Hc4 [Herr Hne]]]]].
+  rewrite fill_loop_S.
+  destruct (rd_read (brd b) (bcap b - bw b)) as [[data e] rd'] eqn:Hrd.
+  destruct (rd_read_facts (brd b) (bcap b - bw b) ltac:(lia) Hne data e rd' Hrd)
+    as [Hdat [Hse [Hld [Hne' [Hsome [Hnone [_ _]]]]]]].
+  destruct e as [x|].
+  - destruct (Hsome x eq_refl) as [Hf Hx]. eexists. split; [reflexivity|].
+    unfold bdata, Inv0. cbn [bcap br bw bwin berr blast brd]. subst rd'. cbn [st_data st_err few_empty_reads] in *.
+    rewrite app_nil_r in Hdat. rewrite !app_nil_r, app_length, <- Hdat.
+    split.
+    { split; [lia|]. split; [lia|]. split; [lia|]. split; [lia|]. split; [|exact I].
+      intros e0 H0. inversion H0; subst. reflexivity. }
+    split; [reflexivity|]. split; [exact Hx|]. split; [reflexivity|]. split; [reflexivity|].
+    split; [reflexivity|]. discriminate.
+  - destruct data as [|d ds].
+    + (* a (0, nil) read: try again *)
+      change (0 <? length (@nil N)) with false. cbv iota.
+      specialize (Hnone eq_refl eq_refl).
+      set (b1 := mkB (bcap b) (br b) (bw b + length (@nil N)) (bwin b ++ []) (berr b) (blast b) rd').
+      assert (HI1 : Inv0 b1).
+      { unfold Inv0, b1. cbn [bcap br bw bwin berr blast brd length]. rewrite app_nil_r, Nat.add_0_r.
+        split; [exact Hlen|]. split; [exact Hrw|]. split; [exact Hwc|]. split; [exact Hc4|].
+        split; [|exact Hne']. intros e0 H0. rewrite He in H0. discriminate. }
+      destruct (IH b1 HI1) as [b' [Hfl [HI' [Hd' [He' [Hl' [Hr' [Hc' Hg']]]]]]]].
+      { exact He. }
+      { unfold b1. cbn [bw bcap length]. lia. }
+      { unfold b1. cbn [brd]. lia. }
+      exists b'. split; [exact Hfl|]. split; [exact HI'|].
+      assert (Hb1 : bdata b1 = bdata b).
+      { unfold bdata, b1. cbn [bwin brd]. rewrite app_nil_r. cbn [app] in Hdat. rewrite Hdat. reflexivity. }
+      split; [rewrite Hd'; exact Hb1|]. split; [rewrite He'; exact Hse|].
+      split; [exact Hl'|]. split; [exact Hr'|]. split; [exact Hc'|].
+      intro H0. specialize (Hg' H0). unfold b1 in Hg'. cbn [bwin] in Hg'. rewrite app_nil_r in Hg'. exact Hg'.
+    + change (0 <? length (d :: ds)) with true. cbv iota.
+      eexists. split; [reflexivity|].
+      unfold bdata, Inv0. cbn [bcap br bw bwin berr blast brd].
+      rewrite app_length, <- app_assoc, Hdat.
+      split.
+      { split; [lia|]. split; [lia|]. split; [lia|]. split; [lia|]. split; [|exact Hne'].
+        intros e0 H0. rewrite He in H0. discriminate. }
+      split; [reflexivity|]. split; [exact Hse|]. split; [reflexivity|]. split; [reflexivity|].
+      split; [reflexivity|]. intros _. cbn [length]. lia.
+Qed.
+
+(* one fill *)
 Lemma fill_spec b : Inv0 b -> berr b = None -> bw b - br b < bcap b ->
   exists b', fill b = Ok b' /\ Inv0 b' /\ bdata b' = bdata b /\ st_err (brd b') = st_err (brd b) /\
              blast b' = blast b /\ br b' = 0 /\ bcap b' = bcap b /\
              (berr b' = None -> length (bwin b) < length (bwin b')).
 Proof.
-  intros [Hlen [Hrw [Hwc [Hc4 [Herr Hne]]]]] He Hroom.
+  intros HI He Hroom. pose proof HI as [Hlen [Hrw [Hwc [Hc4 [Herr Hne]]]]].
   unfold fill.
   set (b1 := if 0 <? br b then mkB (bcap b) 0 (bw b - br b) (bwin b) (berr b) (blast b) (brd b) else b).
   assert (H1 : bcap b1 = bcap b /\ br b1 = 0 /\ bw b1 = bw b - br b /\ bwin b1 = bwin b /\ berr b1 = None /\
@@ -85,30 +164,17 @@ Proof.
   { unfold b1. destruct (Nat.ltb_spec 0 (br b)); cbn; repeat split; auto; lia. }
   destruct H1 as [E1 [E2 [E3 [E4 [E5 [E6 E7]]]]]].
   destruct (Nat.leb_spec (bcap b1) (bw b1)) as [Hfull|Hok]; [lia|].
-  eexists. split; [reflexivity|].
-  unfold maxConsecutiveEmptyReads. change 100 with (S 99). rewrite fill_loop_S.
-  destruct (rd_read (brd b1) (bcap b1 - bw b1)) as [[data e] rd'] eqn:Hrd.
-  rewrite E7 in Hrd.
-  destruct (rd_read_facts (brd b) (bcap b1 - bw b1) ltac:(lia) Hne data e rd' Hrd)
-    as [Hdat [Hse [Hld [Hne' [Hsome Hnone]]]]].
-  unfold bdata, Inv0. destruct e as [x|].
-  - destruct (Hsome x eq_refl) as [Hf Hx]. cbn [bcap br bw bwin berr blast brd].
-    rewrite E1, E2, E3, E4, E6. subst rd'. cbn [st_data st_err nonempty_reads] in *.
-    rewrite app_nil_r in Hdat. rewrite !app_nil_r, app_length, <- Hdat.
-    split.
-    { split; [lia|]. split; [lia|]. split; [lia|]. split; [lia|]. split; [|exact I].
-      intros e0 H0. inversion H0; subst. reflexivity. }
-    split; [reflexivity|]. split; [exact Hx|]. split; [reflexivity|]. split; [reflexivity|].
-    split; [reflexivity|]. discriminate.
-  - specialize (Hnone eq_refl).
-    assert (Hpos : 0 < length data) by (destruct data; [contradiction|cbn; lia]).
-    destruct (Nat.ltb_spec 0 (length data)) as [_|Hbad]; [|lia].
-    cbn [bcap br bw bwin berr blast brd]. rewrite E1, E2, E3, E4, E5, E6.
-    rewrite app_length, <- app_assoc, Hdat.
-    split.
-    { split; [lia|]. split; [lia|]. split; [lia|]. split; [lia|]. split; [discriminate|exact Hne']. }
-    split; [reflexivity|]. split; [exact Hse|]. split; [reflexivity|]. split; [reflexivity|].
-    split; [reflexivity|]. intros _. lia.
+  assert (HI1 : Inv0 b1).
+  { unfold Inv0. rewrite E1, E2, E3, E4, E5, E7.
+    split; [lia|]. split; [lia|]. split; [lia|]. split; [lia|]. split; [discriminate|exact Hne]. }
+  destruct (fill_loop_spec maxConsecutiveEmptyReads b1 HI1 E5 Hok)
+    as [b' [Hfl [HI' [Hd' [He' [Hl' [Hr' [Hc' Hg']]]]]]]].
+  { rewrite E7. apply st_lead_lt. exact Hne. }
+  exists b'. split; [rewrite Hfl; reflexivity|]. split; [exact HI'|].
+  split; [rewrite Hd'; unfold bdata; rewrite E4, E7; reflexivity|].
+  split; [rewrite He', E7; reflexivity|]. split; [rewrite Hl'; exact E6|].
+  split; [rewrite Hr'; exact E2|]. split; [rewrite Hc'; exact E1|].
+  intro H0. specialize (Hg' H0). rewrite E4 in Hg'. exact Hg'.
 Qed.
 
 (* ---- ReadByte ---- *)
@@ -381,7 +447,7 @@ Qed.
 End Sim.
 
 (* ---- Sync over bufio.Reader = Sync over the reader oracle ---- *)
-Lemma rel_init size s : nonempty_reads (Script s) ->
+Lemma rel_init size s : few_empty_reads (Script s) ->
   Rel (new_reader size (Script s)) (SyncIO.start (script_data s) (script_err s)).
 Proof.
   intro Hne. unfold new_reader, SyncIO.start, Rel, Inv0, InvL, bdata, minReadBufferSize.
@@ -393,7 +459,7 @@ Qed.
 
 Definition bsim (A : Type) := @sim breader SyncIO.reader Rel A.
 
-Lemma sync_over_bufio size s : nonempty_reads (Script s) ->
+Lemma sync_over_bufio size s : few_empty_reads (Script s) ->
   bsim (N * option N) (Bufio.sync_raw size s)
        (SyncIO.sync_raw (SyncIO.start (script_data s) (script_err s))).
 Proof.
@@ -413,7 +479,9 @@ Qed.
 (* ---- bufio.Reader.Read and io.ReadFull over it: the next read after Sync ---- *)
 Lemma read_spec b k : Inv0 b -> 0 < k ->
   exists data e b', read k b = Ok ((data, e), b') /\ Inv0 b' /\ data ++ bdata b' = bdata b /\
-    st_err (brd b') = st_err (brd b) /\ length data <= k /\ (e = None -> data <> []) /\
+    st_err (brd b') = st_err (brd b) /\ length data <= k /\
+    weight (brd b') <= weight (brd b) /\
+    (e = None -> data = [] -> weight (brd b') < weight (brd b)) /\
     (forall x, e = Some x -> bdata b' = [] /\ x = st_err (brd b)).
 Proof.
   intros HI Hk. pose proof HI as [Hlen [Hrw [Hwc [Hc4 [Herr Hne]]]]].
@@ -423,7 +491,9 @@ Proof.
        Ok ((out, @None N), mkB (bcap b0) (br b0 + length out) (bw b0) (skipn k (bwin b0)) (berr b0)
                               (last_of out (blast b0)) (brd b0))) = Ok ((data, e), b') /\ Inv0 b' /\
       data ++ bdata b' = bdata b0 /\ st_err (brd b') = st_err (brd b0) /\ length data <= k /\
-      (e = None -> data <> []) /\ (forall x, e = Some x -> bdata b' = [] /\ x = st_err (brd b0))).
+      weight (brd b') <= weight (brd b0) /\
+      (e = None -> data = [] -> weight (brd b') < weight (brd b0)) /\
+      (forall x, e = Some x -> bdata b' = [] /\ x = st_err (brd b0))).
   { intros b0 [Hl0 [Hrw0 [Hwc0 [Hc40 [Herr0 Hne0]]]]] Hw0.
     eexists _, _, _. split; [reflexivity|].
     split.
@@ -431,8 +501,8 @@ Proof.
       split; [lia|]. split; [lia|]. split; [lia|]. split; [lia|]. split; assumption. }
     split.
     { unfold bdata. cbn [bwin brd]. rewrite app_assoc, firstn_skipn. reflexivity. }
-    split; [reflexivity|]. split; [rewrite firstn_length; lia|]. split.
-    - intros _ E0. apply (f_equal (@length N)) in E0. rewrite firstn_length in E0. cbn [length] in E0.
+    split; [reflexivity|]. split; [rewrite firstn_length; lia|]. split; [cbn [brd]; lia|]. split.
+    - intros _ E0. exfalso. apply (f_equal (@length N)) in E0. rewrite firstn_length in E0. cbn [length] in E0.
       destruct (bwin b0); [contradiction|cbn [length] in E0; lia].
     - intros x Hx. discriminate. }
   destruct (Nat.eqb_spec (br b) (bw b)) as [Heq|Hneq].
@@ -443,40 +513,44 @@ Proof.
     eexists _, _, _. split; [reflexivity|]. split.
     { unfold Inv0. cbn [bcap br bw bwin berr blast brd]. repeat (split; [assumption|]).
       split; [discriminate|exact Hne]. }
-    unfold bdata. cbn [bwin brd]. rewrite Hwin, Hf. cbn [st_data st_err app length].
-    split; [reflexivity|]. split; [reflexivity|]. split; [lia|]. split; [discriminate|].
+    unfold bdata. cbn [bwin brd]. rewrite Hwin, Hf. cbn [st_data st_err app length weight].
+    split; [reflexivity|]. split; [reflexivity|]. split; [lia|]. split; [lia|]. split; [discriminate|].
     intros x Hx. inversion Hx; subst. auto.
   - destruct (Nat.leb_spec (bcap b) k) as [Hbig|Hsmall].
     + destruct (rd_read (brd b) k) as [[data e] rd'] eqn:Hrd.
-      destruct (rd_read_facts (brd b) k Hk Hne data e rd' Hrd) as [Hdat [Hse [Hld [Hne' [Hsome Hnone]]]]].
+      destruct (rd_read_facts (brd b) k Hk Hne data e rd' Hrd)
+        as [Hdat [Hse [Hld [Hne' [Hsome [_ [Hwle Hwlt]]]]]]].
       eexists _, _, _. split; [reflexivity|]. split.
       { unfold Inv0. cbn [bcap br bw bwin berr blast brd]. repeat (split; [assumption|]).
         split; [discriminate|exact Hne']. }
       unfold bdata. cbn [bwin brd]. rewrite Hwin. cbn [app].
-      split; [exact Hdat|]. split; [exact Hse|]. split; [exact Hld|]. split; [exact Hnone|].
+      split; [exact Hdat|]. split; [exact Hse|]. split; [exact Hld|]. split; [exact Hwle|].
+      split; [exact Hwlt|].
       intros x Hx. destruct (Hsome x Hx) as [Hf Hxx]. rewrite Hf. cbn [st_data]. auto.
     + destruct (rd_read (brd b) (bcap b)) as [[data e] rd'] eqn:Hrd.
       destruct (rd_read_facts (brd b) (bcap b) ltac:(lia) Hne data e rd' Hrd)
-        as [Hdat [Hse [Hld [Hne' [Hsome Hnone]]]]].
+        as [Hdat [Hse [Hld [Hne' [Hsome [_ [Hwle Hwlt]]]]]]].
       destruct data as [|d ds].
-      * destruct e as [x|]; [|exfalso; apply (Hnone eq_refl); reflexivity].
-        destruct (Hsome x eq_refl) as [Hf Hxx].
-        eexists _, _, _. split; [reflexivity|]. split.
+      * eexists _, _, _. split; [reflexivity|]. split.
         { unfold Inv0. cbn [bcap br bw bwin berr blast brd length].
           split; [lia|]. split; [lia|]. split; [lia|]. split; [lia|]. split; [discriminate|exact Hne']. }
-        unfold bdata. cbn [bwin brd]. rewrite Hwin, Hf. cbn [st_data app length].
-        split; [rewrite Hf in Hdat; exact Hdat|]. split; [rewrite <- Hse, Hf; reflexivity|].
-        split; [lia|]. split; [discriminate|]. intros y Hy. inversion Hy; subst. auto.
+        unfold bdata. cbn [bwin brd]. rewrite Hwin. cbn [app length].
+        split; [exact Hdat|]. split; [exact Hse|]. split; [lia|]. split; [exact Hwle|].
+        split; [exact Hwlt|].
+        intros y Hy. destruct (Hsome y Hy) as [Hf Hyy]. rewrite Hf. cbn [st_data]. auto.
       * set (b1 := mkB (bcap b) 0 (length (d :: ds)) (d :: ds) e (blast b) rd').
         assert (HI1 : Inv0 b1).
         { unfold Inv0, b1. cbn [bcap br bw bwin berr blast brd].
           split; [lia|]. split; [lia|]. split; [exact Hld|]. split; [lia|]. split; [|exact Hne'].
           intros x Hx. destruct (Hsome x Hx) as [Hf _]. exact Hf. }
-        destruct (Hcopy b1 HI1 ltac:(discriminate)) as [dat [e' [b' [Hc [HIb [Hd' [He' [Hl' [Hn' Hs']]]]]]]]].
+        destruct (Hcopy b1 HI1 ltac:(discriminate))
+          as [dat [e' [b' [Hc [HIb [Hd' [He' [Hl' [Hwl' [Hwt' Hs']]]]]]]]]].
         exists dat, e', b'. split; [exact Hc|]. split; [exact HIb|].
         split.
         { rewrite Hd'. unfold bdata, b1. cbn [bwin brd]. rewrite Hwin. cbn [app]. exact Hdat. }
-        split; [rewrite He'; exact Hse|]. split; [exact Hl'|]. split; [exact Hn'|].
+        split; [rewrite He'; exact Hse|]. split; [exact Hl'|].
+        unfold b1 in Hwl', Hwt'. cbn [brd] in Hwl', Hwt'.
+        split; [lia|]. split; [intros H1 H2; specialize (Hwt' H1 H2); lia|].
         intros x Hx. destruct (Hs' x Hx) as [Hb' Hxx]. split; [exact Hb'|]. rewrite Hxx. exact Hse.
 Qed.
 
@@ -498,15 +572,16 @@ Lemma read_full_loop_S f want b acc err : read_full_loop (S f) want b acc err =
 Proof. reflexivity. Qed.
 
 Lemma read_full_loop_spec want : forall fuel b acc, Inv0 b -> length acc < want ->
-  (want - length acc) + 2 <= fuel ->
+  (want - length acc) + 2 + weight (brd b) <= fuel ->
   exists b', read_full_loop fuel want b acc None
              = Ok (acc ++ firstn (want - length acc) (bdata b), rf_err acc (bdata b) want (st_err (brd b)), b')
              /\ Inv0 b' /\ bdata b' = skipn (want - length acc) (bdata b) /\ st_err (brd b') = st_err (brd b).
 Proof.
   induction fuel as [|f IH]; intros b acc HI Ha Hf; [lia|].
   rewrite read_full_loop_S. destruct (Nat.ltb_spec (length acc) want) as [_|Hbad]; [|lia].
-  set (need := want - length acc). assert (Hneed : 0 < need) by (unfold need; lia).
-  destruct (read_spec b need HI Hneed) as [data [e [b1 [Hr [HI1 [Hd1 [He1 [Hl1 [Hnone Hsome]]]]]]]]].
+  set (need := want - length acc) in *. assert (Hneed : 0 < need) by (unfold need; lia).
+  destruct (read_spec b need HI Hneed)
+    as [data [e [b1 [Hr [HI1 [Hd1 [He1 [Hl1 [Hwle [Hwlt Hsome]]]]]]]]]].
   rewrite Hr. cbn [bind fst snd].
   destruct f as [|f']; [lia|].
   destruct e as [x|].
@@ -519,9 +594,7 @@ Proof.
       destruct (Nat.leb_spec need (length data)) as [H'|H']; rewrite app_length in H; unfold need in *;
         try lia; reflexivity.
     + rewrite Hb1, <- Hd1. symmetry. apply skipn_all2. exact Hl1.
-  - specialize (Hnone eq_refl).
-    assert (Hpos : 0 < length data) by (destruct data; [contradiction|cbn; lia]).
-    destruct (Nat.eq_dec (length data) need) as [Hfull|Hpart].
+  - destruct (Nat.eq_dec (length data) need) as [Hfull|Hpart].
     + rewrite read_full_loop_S.
       destruct (Nat.ltb_spec (length (acc ++ data)) want) as [Hbad|_];
         [rewrite app_length in Hbad; unfold need in *; lia|].
@@ -532,11 +605,13 @@ Proof.
           [reflexivity|rewrite app_length in H; lia].
       * rewrite <- Hd1, skipn_app, Hfull, Nat.sub_diag. cbn [skipn].
         rewrite <- Hfull. rewrite skipn_all. reflexivity.
-    + destruct (IH b1 (acc ++ data) HI1) as [b2 [Hr2 [HI2 [Hd2 He2]]]].
-      { rewrite app_length. unfold need in *. lia. }
-      { rewrite app_length. unfold need in *. lia. }
-      assert (Hn' : want - length (acc ++ data) = need - length data)
+    + assert (Hn' : want - length (acc ++ data) = need - length data)
         by (rewrite app_length; unfold need; lia).
+      destruct (IH b1 (acc ++ data) HI1) as [b2 [Hr2 [HI2 [Hd2 He2]]]].
+      { rewrite app_length. unfold need in *. lia. }
+      { rewrite Hn'. destruct data as [|d ds].
+        - specialize (Hwlt eq_refl eq_refl). cbn [length] in *. lia.
+        - cbn [length] in *. lia. }
       rewrite Hn' in *.
       exists b2. split; [|split; [exact HI2|split]].
       * rewrite Hr2. unfold rf_err. fold need. rewrite Hn', <- Hd1, He1.
@@ -561,7 +636,7 @@ Qed.
 (* ---- C16 over bufio.Reader of any size over any fragmentation ---- *)
 From Gots Require Import Proofs.SyncProofs.
 
-Lemma sync_bufio_found size s i : nonempty_reads (Script s) -> is_bytes (script_data s) ->
+Lemma sync_bufio_found size s i : few_empty_reads (Script s) -> is_bytes (script_data s) ->
   first_plausible (script_data s) i ->
   exists b', Bufio.sync_raw size s = Ok (N.of_nat i, None, b') /\
              bdata b' = skipn i (script_data s) /\ st_err (brd b') = script_err s.
@@ -574,7 +649,7 @@ Proof.
 Qed.
 
 (* ... and the next 188 bytes read through bufio.Reader.Read / io.ReadFull are the packet *)
-Lemma sync_bufio_next_read size s i : nonempty_reads (Script s) -> is_bytes (script_data s) ->
+Lemma sync_bufio_next_read size s i : few_empty_reads (Script s) -> is_bytes (script_data s) ->
   first_plausible (script_data s) i ->
   exists b' e b'', Bufio.sync_raw size s = Ok (N.of_nat i, None, b') /\
                    Bufio.read_full 188 b' = Ok (firstn 188 (skipn i (script_data s)), e, b'').
@@ -587,7 +662,7 @@ Proof.
   exists b', e', b''. split; [reflexivity|]. rewrite Hr. cbn [SyncIO.rest] in Hrest. rewrite <- Hrest. reflexivity.
 Qed.
 
-Lemma sync_bufio_none size s : nonempty_reads (Script s) -> is_bytes (script_data s) ->
+Lemma sync_bufio_none size s : few_empty_reads (Script s) -> is_bytes (script_data s) ->
   none_plausible (script_data s) ->
   exists off b', Bufio.sync_raw size s = Ok (off, Some (SyncIO.map_err (script_err s)), b').
 Proof.
@@ -600,7 +675,7 @@ Qed.
 
 (* C05: Sync over the bufio model never panics ("tried to fill full buffer", window indexing)
    and never diverges, for every buffer size and script without (0, nil) reads *)
-Lemma sync_bufio_total size s : nonempty_reads (Script s) -> is_bytes (script_data s) ->
+Lemma sync_bufio_total size s : few_empty_reads (Script s) -> is_bytes (script_data s) ->
   Bufio.sync_raw size s <> Panic /\ Bufio.sync_raw size s <> Diverge.
 Proof.
   intros Hne HB. destruct (first_or_none (script_data s)) as [[i Hi]|Hn].
